@@ -6,11 +6,7 @@ CONSTANTS
   NT = 5
   Observe = FALSE
   ObserveFrom = 1
+  TrackDist = FALSE
   CacheChecksCount = TRUE
-INVARIANT CacheFresh
 INVARIANT GraphAgrees
-INVARIANT FreqExact
-INVARIANT MergeExact
-INVARIANT ObservedOK
-INVARIANT SummariesSane
 CHECK_DEADLOCK FALSE
